@@ -110,9 +110,9 @@ def _gen(ctx, salt, n_simple, n_derived, n_junk):
 
 def cases(ctx):
     if ctx.tier == "quick":
-        yield from _gen(ctx, "q", 8, 5, 150)
+        yield from _gen(ctx, "q", 30, 25, 600)
     else:
-        yield from _gen(ctx, "t", 50, 30, 1500)
+        yield from _gen(ctx, "t", 200, 120, 5000)
 
 
 def case_key(c):
